@@ -14,6 +14,7 @@ ItemAt(g) ==
   ELSE IF g <= O4 THEN ForIndexAt(g - O3)
   ELSE IF g <= O5 THEN PrefixExtAt(g - O4)
   ELSE PathEveryCharAt(g - O5)
+Histories == IF "VERIF_TIER" \in DOMAIN IOEnv /\ IOEnv.VERIF_TIER = "thorough" THEN 300 ELSE 40
 VARIABLE n
 INSTANCE GenBase
 =============================================================================
